@@ -23,6 +23,7 @@ func propC06(c *Ctx) propInfo {
 	c.bitTables()
 	c.limUnaryPairs()
 	c.bufferSizing()
+	c.writersDoNotMutateInput()
 	c.errflow(excC06E2, "boc")
 	c.floor("E10.who-may-write", 10)
 	c.floor("E8.capacity", 4)
@@ -873,4 +874,46 @@ func (c *Ctx) bufferSizing() {
 		c.check(okv && okW, R, "Append grows by the number of bits WriteBitString will write", f.Pos(), "Grow(b.len - free) ; WriteBitString writes b.len bits from 0", "BitString.Append grows the receiver by "+got+" while WriteBitString rewinds its argument and writes all of its len bits: a partly read argument is truncated silently (the write error is discarded)")
 	}
 	c.floor(R, 3)
+}
+
+var bigMutators = map[string]bool{"Add": true, "Sub": true, "Mul": true, "Quo": true, "Rem": true, "Div": true, "Mod": true, "Exp": true,
+	"Lsh": true, "Rsh": true, "Neg": true, "Abs": true, "Not": true, "And": true, "Or": true, "Xor": true, "AndNot": true,
+	"Set": true, "SetInt64": true, "SetUint64": true, "SetBytes": true, "SetBit": true, "SetBits": true, "SetString": true,
+	"DivMod": true, "QuoRem": true, "GCD": true, "ModInverse": true, "Sqrt": true, "FillBytes": false}
+
+// writersDoNotMutateInput: a big integer handed to a writer is the caller's value (the tlb integer
+// types pass a shallow copy that shares its digits with the user's value). math/big methods store
+// their result in the receiver, so the receiver of every such call in the writers is a fresh value,
+// never the parameter.
+func (c *Ctx) writersDoNotMutateInput() {
+	const R = "E10.input-immutable"
+	n := 0
+	for _, name := range []string{"BitString.WriteBigInt", "BitString.WriteBigUint", "Cell.WriteBigInt", "Cell.WriteBigUint"} {
+		f := c.mustFn(R, "boc", name)
+		if f == nil {
+			continue
+		}
+		bad := ""
+		for _, ci := range callsIn(f) {
+			fn := calleeFunc(ci.Common())
+			if fn == nil || fn.Pkg() == nil || fn.Pkg().Path() != "math/big" || !bigMutators[fn.Name()] {
+				continue
+			}
+			if len(ci.Common().Args) == 0 {
+				continue
+			}
+			recv := ci.Common().Args[0]
+			for _, p := range f.Params[1:] {
+				if recv == ssa.Value(p) || derivesFrom(recv, func(v ssa.Value) bool { return v == ssa.Value(p) }, false) {
+					if _, isPtr := p.Type().(*types.Pointer); isPtr {
+						bad = fmt.Sprintf("big.Int.%s is called with the parameter %s as its receiver at %s", fn.Name(), paramPos(p), c.rel(ci.Pos()))
+					}
+				}
+			}
+		}
+		n++
+		c.check(bad == "", R, name+" does not write into the big integer it is given", f.Pos(), "results are computed into fresh values", name+": "+bad+": the caller's value is overwritten (encoding a negative Int257 twice writes two different numbers)")
+	}
+	c.floor(R, 4)
+	_ = n
 }
